@@ -15,8 +15,13 @@ Definition path_known (p : string) : bool :=
 Definition requires_at_least_one (path : string) (m : mcond) : bool :=
   match m with MLess p k => (p =? path) && (1 <=? k)%Z | _ => false end.
 
+(* a negative TOML integer, stored modulo 2^64, is refused: if config.<path> > k with k < 2^63 *)
+Definition refuses_negative (path : string) (m : mcond) : bool :=
+  match m with MGreater p k => (p =? path) && (k <? two63)%Z | _ => false end.
+
 Definition facts_ok (F : facts) : bool :=
   existsb (requires_at_least_one "Scenario.RunNumber") (f_mandatory F)
+  && existsb (refuses_negative "Scenario.RunNumber") (f_mandatory F)
   && existsb (requires_at_least_one "Scenario.Reporting.ReportEveryNumberOfIterations") (f_mandatory F)
   && forallb (fun m => path_known (mpath m)) (f_mandatory F)
   (* every text the decoder lets through as Annealer.Type is registered with a real annealer *)
@@ -24,6 +29,7 @@ Definition facts_ok (F : facts) : bool :=
 
 Definition facts_diagnosis (F : facts) : list (string * bool) :=
   [ ("checkMandatoryFields requires Scenario.RunNumber >= 1", existsb (requires_at_least_one "Scenario.RunNumber") (f_mandatory F));
+    ("checkMandatoryFields refuses a negative Scenario.RunNumber", existsb (refuses_negative "Scenario.RunNumber") (f_mandatory F));
     ("checkMandatoryFields requires Scenario.Reporting.ReportEveryNumberOfIterations >= 1",
      existsb (requires_at_least_one "Scenario.Reporting.ReportEveryNumberOfIterations") (f_mandatory F));
     ("every mandatory condition reads a field the model knows", forallb (fun m => path_known (mpath m)) (f_mandatory F));
@@ -59,42 +65,34 @@ Definition tables_diagnosis (T : tables) : list (string * bool) :=
     ("DecisionVariable: non-optional string", key_spec_ok (t_kp_explorer T) "DecisionVariable" TString);
     ("limits: decimals", forallb (fun kv => guarded_key_ok (t_catchment T) (fst kv) TFloat) limit_keys) ].
 
-(* ---- what interpretation needs from the environment in order not to panic ---- *)
-Definition model_kind_of (F : facts) (l : loaded) : option mkind := assoc (l_model_type l) (f_models F).
-
+(* ---- what interpretation needs from the environment in order not to panic: only the C18 finding is left (initial values of the
+        multi-objective dumb model outside RoundFloat's range panic while that model is constructed) ---- *)
 Definition interpret_env_ok (F : facts) (T : tables) (E : env) (l : loaded) : bool :=
   match interpret_model F T E l with
-  | Some m =>
-      match mb_kind m with
-      | MKCatchment => match data_of E m with DataMalformed => false | _ => true end
-      | MKMoDumb => e_round_ok E (mb_params m)
-      | _ => true
-      end
+  | Some m => match mb_kind m, mb_errors m with MKMoDumb, [] => e_round_ok E (mb_params m) | _, _ => true end
   | None => true
   end.
 
-(* ---- what a run needs beyond acceptance: each conjunct has a refutation witness in Properties/C19.v ---- *)
-Definition limit_ok (d0 : dataset) (lim : option (vk * Q)) : bool :=
+(* ---- what a run needs beyond acceptance.  After the series C19-3 .. C19-13 nothing about the CONFIGURATION is left: the model type,
+        the decision variable, the data source class, a binding limit, the output type, the run counts are all checked by the loader /
+        interpreter (derived in ConfigProofs.accepted_shape).  What remains is about the ENVIRONMENT at run time and about the
+        unverified derivation of the model's constants from the data files. ---- *)
+Definition limit_attainable (d0 : dataset) (lim : option (vk * Q)) : bool :=
   match lim with
   | None => true
-  | Some _ => let d := with_limit d0 lim in state_is_valid d (start_extreme d) && limit_binding d
+  | Some _ => let d := with_limit d0 lim in state_is_valid d (start_extreme d)
   end.
 
 Definition run_preconditions (E : env) (sc : scenario) : bool :=
-  negb (match s_mkind sc with MKNull => true | _ => false end)                                          (* null-model *)
-  && (negb (single_objective (s_family sc)) || variable_exists (s_mkind sc) (s_decision_var sc))           (* decision-variable-not-offered *)
-  && match s_mkind sc with
-     | MKCatchment => match s_data sc with
-                      | DataOk d0 => wf_dataset d0 && limit_ok d0 (s_limit sc)                             (* limit-not-binding *)
-                      | _ => false                                                                         (* data-source-* *)
-                      end
-     | _ => true
-     end
-  && e_out_usable E (s_out_path sc)                                                                        (* output-path-not-a-directory *)
-  && ((s_profile sc =? "") || e_profile_ok E (s_profile sc))                                               (* cpu-profile-path-uncreatable *)
-  && (match otype_ext (s_otype sc) with Some _ => true | None => e_excel E end)                            (* excel-output-without-excel *)
-  && (s_runs sc <? two63)%Z && (s_concurrent sc <? two63)%Z                                                (* negative-(concurrent-)run-number *)
-  && no_nl (s_name sc).                                                                                    (* side condition of C12's naming lemma *)
+  match s_mkind sc, s_data sc with
+  | MKCatchment, DataOk d0 => wf_dataset d0              (* the constants exported from the loaded tables are well formed (checked by computation
+                                                             on every data set the harness loads) *)
+                              && limit_attainable d0 (s_limit sc)   (* the optimisers' starting extreme satisfies the limit (cf. C03) *)
+  | _, _ => true
+  end
+  && e_out_usable E (s_out_path sc)                                  (* run-time environment: the saver can create its directory and files *)
+  && ((s_profile sc =? "") || e_profile_ok E (s_profile sc))         (* run-time environment: the profile file can be created *)
+  && no_nl (s_name sc).                                              (* side condition of C12's naming lemma, not a defect *)
 
 (* ---- bounded fairness of a pick list: k windows, each containing every index below n ---- *)
 Definition covers (n : nat) (l : list nat) : Prop := forall i, (i < n)%nat -> In i l.
